@@ -215,6 +215,163 @@ func (c *Ctx) queuesAfterWrites(d *dstate, fn *ssa.Function, memo map[*ssa.Funct
 	return nOK, bad, len(paths)
 }
 
+// ruleSuccessWrites implements C09-R9 / C07-R8 / C01-R10: a mutator that builds a fresh entry (a create, a set, a removal
+// that records a tombstone) stores and broadcasts it on every path that reports success. The only mutators that may
+// report success without writing are the bulk ones (nothing matched) and those that update the entry they looked up
+// (there is nothing to update). A "nothing stored here, nothing to do" fast path in a tombstone-writing removal loses
+// the removal whenever it overtakes the addition it removes: the addition arrives later and is accepted.
+func (c *Ctx) ruleSuccessWrites(id string, d *dstate, only string) {
+	ru := c.R.Rule(id, "a mutator that builds a fresh entry (create, set, tombstone-recording removal) writes it to the store and queues its broadcast on every path that reports success; only bulk mutators and mutators that update the entry they looked up may succeed without writing (a removal that returns early because nothing is stored locally leaves no tombstone: the addition it overtook is accepted when it arrives)", "E1 paths with package helpers inlined + provenance of the entry object", 1)
+	for _, m := range d.mutators {
+		if only != "" && m.iface != only {
+			continue
+		}
+		f := m.fn
+		key := m.iface + "." + m.name + " always writes"
+		delegated := false
+		for _, cl := range core.CallsIn(f) {
+			if cl.Static != nil && d.mutatorOf(cl.Static) != nil {
+				delegated = true
+			}
+		}
+		if delegated || m.bulk {
+			continue
+		}
+		// updater: the object that receives the stamp was initialised as a whole from a value read from the store
+		updater := false
+		for _, g := range c.funcsDeepStop(f, 2, func(g *ssa.Function) bool { return g.Package() != d.pkg || d.mutatorOf(g) != nil }) {
+			for _, b := range g.Blocks {
+				for _, in := range b.Instrs {
+					st, ok := in.(*ssa.Store)
+					if !ok {
+						continue
+					}
+					fa, ok := st.Addr.(*ssa.FieldAddr)
+					if !ok || !d.isEntryType(fa.X.Type()) {
+						continue
+					}
+					n := fieldNameOf(fa.X.Type(), fa.Field)
+					if n != "LastAdded" && n != "LastDeleted" {
+						continue
+					}
+					base, ok := core.Strip(fa.X).(*ssa.Alloc)
+					if !ok {
+						continue
+					}
+					for _, ws := range allStoresTo(base) {
+						if depReaches(ws.Val, func(v ssa.Value) bool { return c.isStoreRead(d, v) }) {
+							updater = true
+						}
+					}
+				}
+			}
+		}
+		if updater {
+			ru.OK(key, c.where(f, f), "updates the entry it looked up: nothing to write when there is none")
+			continue
+		}
+		paths, err := c.pathsInlinedPkg(f, core.PathOpts{}, func(g *ssa.Function) bool { return d.mutatorOf(g) != nil })
+		if err != nil {
+			ru.Undecided(key, c.where(f, f), err.Error())
+			continue
+		}
+		nOK, bad := 0, ""
+		for _, p := range paths {
+			if _, ok := p.Exit.(*ssa.Return); !ok {
+				continue
+			}
+			if isNil, known := p.ReturnsNilError(); known && !isNil {
+				continue
+			}
+			if errorNonNilOnPath(p) {
+				continue
+			}
+			wrote := false
+			for _, pi := range p.Instrs() {
+				if _, isDefer := pi.In.(*ssa.Defer); isDefer && !pi.Deferred {
+					continue
+				}
+				if c.isStoreWrite(d, pi.In) {
+					wrote = true
+				}
+			}
+			if wrote {
+				nOK++
+			} else {
+				bad = "a path reports success without having written the entry (no tombstone / no value recorded, nothing broadcast): " + fmtPath(p, c.P)
+			}
+		}
+		ru.Check(bad == "" && nOK > 0, key, c.where(f, f), fmt.Sprintf("%d successful path(s), each writes the store", nOK), bad+map[bool]string{true: "", false: " (no successful writing path)"}[nOK > 0])
+	}
+}
+
+// ruleEventLoopsAppendEveryEntry implements C09-R10 (= C10-R7): a loop that fills a repeated field of a
+// StateBroadcastEvent appends on every iteration. An append that sits on one branch only (the entry that makes a chunk
+// overflow starts the next chunk but is not put into it) leaves an entry out of every broadcast.
+func (c *Ctx) ruleEventLoopsAppendEveryEntry(id string, d *dstate) {
+	ru := c.R.Rule(id, "every loop of wasp/distributed that appends to a repeated field of a StateBroadcastEvent does so on each of its iterations: the append dominates every back edge of the loop (an entry skipped by the loop that builds the events is in no broadcast and no snapshot)", "E2 dominance over back edges of event-building loops", 2)
+	n := 0
+	for _, f := range c.P.ModFuncs() {
+		if f.Package() != d.pkg || c.P.IsGenerated(f) {
+			continue
+		}
+		loops := core.Loops(f)
+		if len(loops) == 0 {
+			continue
+		}
+		for _, b := range f.Blocks {
+			for _, in := range b.Instrs {
+				st, ok := in.(*ssa.Store)
+				if !ok {
+					continue
+				}
+				fa, ok := st.Addr.(*ssa.FieldAddr)
+				if !ok || !isNamed(derefT(fa.X.Type()), "wasp/api", "StateBroadcastEvent") {
+					continue
+				}
+				cv, ok := core.Strip(st.Val).(*ssa.Call)
+				if !ok || core.CallOf(cv).Builtin() != "append" {
+					continue
+				}
+				l := core.InnermostLoop(loops, b)
+				if l == nil {
+					continue
+				}
+				n++
+				c.R.Fn(c.fname(f))
+				key := fmt.Sprintf("append to %s in a loop of %s", fieldNameOf(fa.X.Type(), fa.Field), c.fname(f))
+				bad := ""
+				// another append to the same field elsewhere in the loop may cover the other branch
+				covered := func(pr *ssa.BasicBlock) bool {
+					for ob := range l.Blocks {
+						for _, oin := range ob.Instrs {
+							ost, ok := oin.(*ssa.Store)
+							if !ok {
+								continue
+							}
+							ofa, ok := ost.Addr.(*ssa.FieldAddr)
+							if !ok || !isNamed(derefT(ofa.X.Type()), "wasp/api", "StateBroadcastEvent") || ofa.Field != fa.Field {
+								continue
+							}
+							if ocv, ok := core.Strip(ost.Val).(*ssa.Call); ok && core.CallOf(ocv).Builtin() == "append" && ob.Dominates(pr) {
+								return true
+							}
+						}
+					}
+					return false
+				}
+				for _, pr := range l.Header.Preds {
+					if l.Blocks[pr] && !covered(pr) {
+						bad = "an iteration can reach the next one without appending its entry to the event (back edge at " + c.P.Pos(lastPos(pr)) + "): that entry is missing from what is gossiped"
+					}
+				}
+				ru.Check(bad == "", key, c.whereI(st), "the append dominates every back edge", bad)
+			}
+		}
+	}
+	ru.Anchor(n > 0, "a loop appending to a StateBroadcastEvent field")
+}
+
 func checkC09(c *Ctx) {
 	c.R.Explanation = "Static rules over the mutators of the three replicated state types (wasp/distributed): (R1) every path that wrote the store and reports success queues a broadcast afterwards; (R2) what is queued is proto.Marshal of a StateBroadcastEvent whose element is the very variable written to the store; (R3) in bulk mutators the store write and the append to the event happen in the same loop iteration; (R4) no loop-carried alias: the pointer appended is distinct per iteration (go 1.14 range-variable semantics are honoured); (R5) the broadcast type queued by mutators never invalidates another broadcast; (R6) the timestamp is read and the entry stored under one hold of the state lock, so stamp order equals local application order."
 	c.R.NotCovered = "Value-level equality of the receiver's listing with the sender's (needs execution of the merge algebra, partly decided under C08), memberlist queue behaviour (retransmit limits)."
@@ -390,6 +547,8 @@ func checkC09(c *Ctx) {
 		ru6.Check(bad == "", key, c.where(f, f), "clock() read with the state lock held exclusively", bad)
 	}
 	c.ruleLoopAlias("C09-R4", fns, 2)
+	c.ruleSuccessWrites("C09-R9", d, "")
+	c.ruleEventLoopsAppendEveryEntry("C09-R10", d)
 
 	// R5
 	ru5 := c.R.Rule("C09-R5", "the memberlist.Broadcast type queued by mutators reports Invalidates == false for every other broadcast", "E11 constant return", 1)
